@@ -34,6 +34,9 @@ def compute_mc_paths_giles(rmse: float, vl: np.array, cl: np.array) -> np.array:
     :return: the updated number of Monte-Carlo paths for each level l
     """
     theta = THETA
+    # lists and integer arrays are accepted too: the zero-cost substitution below needs a float array
+    vl = np.asarray(vl, dtype=float)
+    cl = np.asarray(cl, dtype=float)
     cl_zerocost = cl.copy()
     cl_zerocost[
         cl_zerocost == 0
